@@ -88,6 +88,30 @@ def make_case(family, n, seed):
         N, E = np.array(CUBE + OCTA, float), np.array([1.0] * 6 + [s3] * 8)
     elif family == "rhombic-dodecahedron":
         N, E = np.array(DODE, float), np.ones(12)
+    elif family == "bipyramid":
+        # k-gonal bipyramid: k facets meet in each apex (the more facets through a vertex, the more copies of it the dual hull yields)
+        k = [6, 8, 12, 16, 20, 24, 28, 30][n % 8]
+        th = nrng.uniform(0.6, 1.0)
+        N = np.array([[math.cos(2 * math.pi * j / k) * math.sin(th), math.sin(2 * math.pi * j / k) * math.sin(th), sg * math.cos(th)] for j in range(k) for sg in (1, -1)])
+        E = np.ones(2 * k)
+    elif family == "vicinal-cube":
+        # a cube whose top and bottom faces are each split into two faces tilted by +-delta about x (vicinal faces): 12 vertices, two
+        # ridges; the two faces of a pair are distinct half-spaces however small delta is
+        d = [3e-5, 4e-5, 1e-4, 1e-3, 1e-2, 5e-5][n % 6]
+        top = [[0, math.sin(d), math.cos(d)], [0, -math.sin(d), math.cos(d)]]
+        N = np.array([[1, 0, 0], [-1, 0, 0], [0, 1, 0], [0, -1, 0]] + top + [[-a for a in t] for t in top], float)
+        E = np.ones(8)
+    elif family == "generic-vicinal":
+        N = nrng.normal(size=(6, 3))
+        N = N / np.linalg.norm(N, axis=1)[:, None]
+        E = nrng.uniform(1, 2, size=6)
+        j = int(np.argmin(E))
+        t = np.cross(N[j], nrng.normal(size=3))
+        t /= np.linalg.norm(t)
+        d = [3e-5, 1e-4, 1e-3][n % 3]
+        N = np.vstack([N, math.cos(d) * N[j] + math.sin(d) * t])
+        E = np.append(E, E[j])
+        N, E = np.vstack([N, -N]), np.concatenate([E, E])
     else:
         raise ValueError(family)
     N = N / np.linalg.norm(N, axis=1)[:, None]
@@ -196,7 +220,8 @@ def judge(family, n, seed, construct=None):
     return None, w
 
 
-FAMILIES = ["generic", "cube", "box", "prism", "octahedron", "truncated-cube", "cuboctahedron", "cube-touching-octa", "rhombic-dodecahedron"]
+FAMILIES = ["generic", "cube", "box", "prism", "octahedron", "truncated-cube", "cuboctahedron", "cube-touching-octa", "rhombic-dodecahedron",
+            "bipyramid", "vicinal-cube", "generic-vicinal"]
 
 
 def cases(ctx, budget):
@@ -206,7 +231,7 @@ def cases(ctx, budget):
         yield "generic", rng.choice([6, 8, 10, 14, 20, 30, 40, 60]) if k >= 8 else [6, 8, 10, 14, 20, 30, 40, 60][k], rng.randrange(1 << 30)
     reps = 2 if budget == "quick" else 8
     for fam in FAMILIES[1:]:
-        for r in range(reps):
+        for r in range(reps if fam not in ("bipyramid", "vicinal-cube") else (3 * reps if budget == "quick" else 15 * reps)):
             yield fam, rng.randint(3, 12), rng.randrange(1 << 30) * 2 + (r % 2)
 
 
